@@ -897,9 +897,24 @@ pub fn check_c08(args: &Args) -> Outcome {
     if done < na + nb {
         ev.inconclusive.push(format!("wall-clock watchdog: {} of {} cases not generated", na + nb - done, na + nb));
     }
+    // (c) what actually leaves a node on the real UDP transport over loopback, also right after failed sends: every
+    // datagram received from the server is exactly one well-formed message (wall clock; a missing answer is inconclusive)
+    if !args.has("--no-udp") {
+        let rt = tokio::runtime::Builder::new_multi_thread().worker_threads(2).enable_all().build().unwrap();
+        for r in 0..args.tier.pick(2u64, 10u64) {
+            let (f, c, inc) = rt.block_on(crate::server::udp_scenario(seed, 1_000 + r));
+            ev.counters.merge(&c);
+            for x in f {
+                if x.is_for("C08") {
+                    violations.push((x, json!({"engine": "E10-udp", "seed": seed, "round": 1_000 + r})));
+                }
+            }
+            ev.inconclusive.extend(inc);
+        }
+    }
     ev.extra.insert("cases".into(), json!(ev.evaluations));
     ev.evaluations = ev.counters.get("messages_checked") + ev.counters.get("independent_encodings");
-    ev.rule = "(a) real nodes (ids of length 0/1/255/256/16,384/60,000, IPv4+IPv6, every status, empty members, max-version tails, up to 900 members) emit SYN / SYN-ACK / ACK / BadCluster: announced length, real re-decode (==, nothing left), independent decode == the node's own view, content == sender state; (b) independently encoded messages (string lengths 0,1,255,256,16,383..16,385,65,534,65,535; raw / zstd / tiny / 65,535-byte / randomly cut blocks; digests up to 2,000 entries) decoded by the real decoder and compared; distinct = distinct byte strings (hash), each one a different message".into();
+    ev.rule = "(a) real nodes (ids of length 0/1/255/256/16,384/60,000, IPv4+IPv6, every status, empty members, max-version tails, up to 900 members) emit SYN / SYN-ACK / ACK / BadCluster: announced length, real re-decode (==, nothing left), independent decode == the node's own view, content == sender state; (b) independently encoded messages (string lengths 0,1,255,256,16,383..16,385,65,534,65,535; raw / zstd / tiny / 65,535-byte / randomly cut blocks; digests up to 2,000 entries) decoded by the real decoder and compared; (c) datagrams received from a real server over UDP loopback, also right after failed sends, are exactly one well-formed message each; distinct = distinct byte strings (hash), each one a different message".into();
     ev.assumptions = vec!["strings <= 65,535 bytes and <= 65,535 digest entries (the quantifier)".into(), "zstd is a black box shared by both codecs".into()];
     let nothing = ev.counters.get("messages_checked") == 0 || ev.counters.get("independent_encodings") == 0;
     Outcome { evidence: ev, violations, nothing_observed: nothing }
